@@ -82,19 +82,19 @@ package runner
 //@   loop 0: invariant acq(t.status) == t.status && acq(t.err) == t.err && claimed == old(claimed)
 
 //@ func (*runner.target).run$1
-//@   requires deref(t) != nil
-//@   requires holds(deref(t).m)
-//@   requires acq(deref(t).status) >= 1
-//@   requires deref(t).status >= 0 && deref(t).status <= 3
-//@   requires (deref(t).status == 2 ==> deref(t).err == nil) && (deref(t).status == 3 ==> deref(t).err != nil)
-//@   requires acq(deref(t).status) <= deref(t).status
-//@   requires acq(deref(t).status) >= 2 ==> (deref(t).status == acq(deref(t).status) && deref(t).err == acq(deref(t).err))
-//@   requires (acq(deref(t).status) == 1 && !claimed[deref(t)]) ==> (deref(t).status == 1 && deref(t).err == acq(deref(t).err))
-//@   ensures  !holds(deref(t).m)
-//@   ensures  deref(t).status >= old(deref(t).status)
-//@   ensures  old(deref(t).status) >= 2 ==> deref(t).status == old(deref(t).status)
+//@   requires t != nil
+//@   requires holds(t.m)
+//@   requires acq(t.status) >= 1
+//@   requires t.status >= 0 && t.status <= 3
+//@   requires (t.status == 2 ==> t.err == nil) && (t.status == 3 ==> t.err != nil)
+//@   requires acq(t.status) <= t.status
+//@   requires acq(t.status) >= 2 ==> (t.status == acq(t.status) && t.err == acq(t.err))
+//@   requires (acq(t.status) == 1 && !claimed[t]) ==> (t.status == 1 && t.err == acq(t.err))
+//@   ensures  !holds(t.m)
+//@   ensures  t.status >= old(t.status)
+//@   ensures  old(t.status) >= 2 ==> t.status == old(t.status)
 //@   ensures  claimed == old(claimed)
-//@   modifies holds(deref(t).m)
+//@   modifies holds(t.m)
 
 //@ func (*runner.target).run
 //@   requires t != nil && r != nil && r.gate != nil
